@@ -48,24 +48,30 @@ pub mod l0 {
     use crate::error::*;
     use crate::val::*;
     use std::{any::Any, fmt::Debug};
+    /// element storage of Eager/Lazy arrays and the copy buffer of `extended`: fixed capacity
+    /// (prelude/fixed.rs) — a growing heap Vec of symbolic length exhausts CBMC's memory
+    pub type Vec<T> = crate::prelude::fixed::FixedVec<T, 10>;
 
     //@extract crates/jrsonnet-evaluator/src/arr/spec.rs :: trait ArrayLike
     //@extract crates/jrsonnet-evaluator/src/arr/mod.rs :: trait ArrayLikeIter
     //@extract crates/jrsonnet-evaluator/src/arr/mod.rs :: impl ArrayLikeIter for I
 
+    #[derive(Clone)]
     //@extract crates/jrsonnet-evaluator/src/arr/spec.rs :: struct EagerArray
     //@extract crates/jrsonnet-evaluator/src/arr/spec.rs :: impl ArrayLike for EagerArray
+    #[derive(Clone)]
     //@extract crates/jrsonnet-evaluator/src/arr/spec.rs :: struct LazyArray
     //@extract crates/jrsonnet-evaluator/src/arr/spec.rs :: impl ArrayLike for LazyArray
     //@extract crates/jrsonnet-evaluator/src/arr/spec.rs :: struct WithExactSize
     //@extract crates/jrsonnet-evaluator/src/arr/spec.rs :: impl Iterator for WithExactSize
     //@extract crates/jrsonnet-evaluator/src/arr/spec.rs :: impl DoubleEndedIterator for WithExactSize
     //@extract crates/jrsonnet-evaluator/src/arr/spec.rs :: impl ExactSizeIterator for WithExactSize
+    #[derive(Clone)]
     //@extract crates/jrsonnet-evaluator/src/arr/spec.rs :: struct RangeArray
     //@extract crates/jrsonnet-evaluator/src/arr/spec.rs :: impl RangeArray
     //@extract crates/jrsonnet-evaluator/src/arr/spec.rs :: impl ArrayLike for RangeArray
 
-    #[derive(Debug)]
+    #[derive(Debug, Clone)]
     pub enum Node {
         Eager(EagerArray),
         Lazy(LazyArray),
@@ -115,7 +121,8 @@ pub mod l0 {
             dispatch!(self, v => v.is_cheap())
         }
     }
-    #[derive(Debug)]
+    /// level-0 arrays are clonable (`Cc` clone in the repo): needed by std.removeAt, which slices its argument twice
+    #[derive(Debug, Clone)]
     pub struct Out(pub Node);
 //@include accessors.in
     impl Out {
@@ -129,6 +136,14 @@ pub mod l1 {
 }
 pub mod l2 {
 //@include level.in LOWER=l1
+}
+
+/// std.removeAt / std.remove are `extended(arr[:at], arr[at+1:])`: the builtin's text over the level types
+pub mod remove {
+    use crate::error::*;
+    use crate::l1::{Out as ArrValue, Views as _};
+    use crate::l2::Views as _;
+    //@extract crates/jrsonnet-stdlib/src/arrays.rs :: fn builtin_remove_at || s/arr: ArrValue/arr: crate::l0::Out/1 || s/Result<ArrValue>/Result<crate::l2::Out>/1
 }
 
 #[cfg(kani)]
